@@ -204,7 +204,24 @@ def traditional_clause(cl, rng, n, replay):
         k = int(rng.integers(1, 6))
         f = np.geomspace(0.2, 20, m)
         A = np.array([gen_curve(rng, m) for _ in range(k)])
-        h = hvsrpy.HvsrTraditional(f, A)
+        if j % 3 == 1:
+            # the other public constructor: a result assembled from single curves, some of which were searched over a bounded range before.  The result
+            # declares the range it declares (the full one) and every window reports the peak of *that* range
+            curves = [hvsrpy.HvsrCurve(f, row) for row in A]
+            for c in curves[::2]:
+                rr = gen_range(rng, f)
+                if not _razor(f, rr):
+                    c.update_peaks_bounded(search_range_in_hz=rr)
+            h = hvsrpy.HvsrTraditional.from_hvsr_curves(curves)
+            declared = tuple(h._search_range_in_hz)
+            cl.case((m, k, "from_hvsr_curves", j))
+            if not np.array_equal(h.amplitude, A) or not np.array_equal(h.frequency, f):
+                cl.fail("hvsrpy.hvsr_traditional.HvsrTraditional.from_hvsr_curves", "rows are not the curves given, in order", signature="traditional:from-curves-rows")
+                return
+            if not _check_traditional(cl, h, f, A, declared, "hvsrpy.hvsr_traditional.HvsrTraditional.from_hvsr_curves", dict(history=["from_hvsr_curves", declared])):
+                return
+        else:
+            h = hvsrpy.HvsrTraditional(f, A)
         if not _check_traditional(cl, h, f, A, (None, None), "hvsrpy.hvsr_traditional.HvsrTraditional.update_peaks_bounded", dict(history=[(None, None)])):
             return
         hist = [(None, None)]
@@ -295,6 +312,21 @@ def azimuthal_clause(cl, rng, n, replay):
                     return
             for ai, (hv, A) in enumerate(zip(h.hvsrs, As)):
                 if not _check_traditional(cl, hv, f, A, r, "hvsrpy.hvsr_azimuthal.HvsrAzimuthal.update_peaks_bounded", dict(azimuth_index=ai, history=list(hist))):
+                    return
+            # the table of per-azimuth mean-curve peaks: entry a is the peak of azimuth a's own mean curve in the range; an azimuth without one is never
+            # reported with numbers (the library refuses the whole table with the per-azimuth object's ValueError)
+            if all(hv.valid_window_boolean_mask.sum() >= 1 for hv in h.hvsrs):
+                wants = [spec_peak(f, hv.mean_curve("lognormal"), r) for hv in h.hvsrs]
+                try:
+                    gf, ga = h.mean_curve_peak_by_azimuth("lognormal")
+                    ok = len(gf) == naz and len(ga) == naz and all(w is not None and gf[a] == w[0] and ga[a] == w[1] for a, w in enumerate(wants))
+                    got = (np.array(gf), np.array(ga))
+                except ValueError:
+                    ok = any(w is None for w in wants)
+                    got = "ValueError"
+                if not ok:
+                    cl.fail("hvsrpy.hvsr_azimuthal.HvsrAzimuthal.mean_curve_peak_by_azimuth", "per-azimuth mean-curve peaks: an entry is not the peak of that azimuth's mean curve "
+                            "in the range (or an azimuth without a peak is reported with numbers)", signature="azimuthal:peak-by-azimuth", range=r, required=wants, observed=got)
                     return
             # the azimuthal mean-curve peak uses the same range
             try:
